@@ -6,23 +6,18 @@
 From Coq.Strings Require Import Byte String.
 From Coq Require Import List NArith ZArith Bool.
 Import ListNotations.
-From V Require Import lib.Bytes model.Walk spec.WalkSpec.
+From V Require Import lib.Bytes model.Walk spec.WalkSpec model.RootPath.
 Require Extraction.
 Require Import ExtrOcamlBasic.
 
 Definition is (f : bytes) (s : string) : bool := bytes_eqb f (bs s).
 Definition arg (n : nat) (a : list bytes) : bytes := nth n a [].
 
-Fixpoint split_slash (cur : bytes) (s : bytes) : list bytes :=
-  match s with
-  | [] => [rev cur]
-  | b :: r => if Byte.eqb b x2f then rev cur :: split_slash [] r else split_slash (b :: cur) r
-  end.
+(* split_slash, join_slash, of_path: model/RootPath.v *)
 Definition to_path (s : bytes) : path :=
   let cs := split_slash [] s in (removelast cs, last cs []).
-Fixpoint join_slash (l : list bytes) : bytes :=
-  match l with [] => [] | [x] => x | x :: r => x ++ x2f :: join_slash r end.
-Definition of_path (p : path) : bytes := join_slash (fst p ++ [snd p]).
+(* an absolute path from its components *)
+Definition abs_string (cs : list bytes) : bytes := x2f :: join_slash cs.
 Definition num (s : bytes) : N := match undec s with Some n => n | None => 0%N end.
 (* signed decimal <-> Z *)
 Definition znum (s : bytes) : Z :=
@@ -80,6 +75,15 @@ Definition dispatch (f : bytes) (a : list bytes) : list bytes :=
     let '(l, os, rest) := dec_entries (N.to_nat (num (arg 2 a))) (skipn 3 a) in
     let '(l', _, _) := dec_entries (N.to_nat (num (arg 0 rest))) (skipn 1 rest) in
     [b2 (spec_check (oracle os) keep l l' failed)]
+  else if is f "name" then
+    (* args: -path argument as spelled, working directory, root-relative slash path of a template.
+       reply: the file name the handler gives the generator (name_given), the root-relative slash path (what the
+       specification's oracle receives), Clean of the stored root, the event name WalkFiles sends *)
+    let root := stored_root (arg 0 a) (arg 1 a) in let p := to_path (arg 2 a) in
+    [name_given (arg 0 a) (arg 1 a) p; of_path p; abs_string (clean root); abs_string (event_name root p)]
+  else if is f "clean" then [abs_string (clean (split_slash [] (arg 0 a)))]   (* filepath.Clean of an absolute path *)
+  else if is f "rel" then [join_slash (rel (split_slash [] (arg 0 a)) (split_slash [] (arg 1 a)))]   (* filepath.Rel, absolute paths *)
+  else if is f "wfn" then [with_file_name (arg 0 a)]   (* generator.WithFileName *)
   else [bs "?"].
 
 Extraction "model.ml" dispatch.
